@@ -190,6 +190,8 @@ def run_case(sh: Shard, case: dict) -> None:
     if res.status == "raised":
         if C.is_zero_iter_unrecoverable(prog, res):
             mech = "C16/zero-iteration-loop-output-unrecoverable"
+        elif C.is_scatter_join_mispaired(prog, res):
+            mech = "C16/scatter-join-mispaired-after-recovery"
         elif C.is_runaway_nested_recovery(res, limit):
             mech = "C16/runaway-nested-recovery"
         else:
